@@ -2,6 +2,7 @@ package main
 
 import (
 	"fmt"
+	"github.com/lidofinance/dc4bc/fsm/state_machines"
 	"strings"
 )
 
@@ -63,6 +64,77 @@ func scenarioC19(c *Ctx) {
 		}
 	}
 	reported := map[string]bool{}
+	// the two hand-over points, deterministically: a LIVE instance is driven to the collected state
+	// of its machine and offered the next machine's entry event, next to the instance restored from
+	// its dump (the random walks below reach these states only by chance)
+	{
+		n, t := 2, 2
+		step := func(inst *state_machines.FSMInstance, ev Ev, steps *[]string, obs *[]string) (StepObs, StepObs, []byte) {
+			pre, err := inst.Dump()
+			if err != nil {
+				panic(err)
+			}
+			restored := doOnDump(pre, ev)
+			live := doOnInstance(inst, ev)
+			*steps = append(*steps, ev.Line())
+			*obs = append(*obs, live.Line()+" ## "+restored.Line())
+			return live, restored, pre
+		}
+		report := func(pre []byte, live, restored StepObs, start string, steps []string) {
+			if live.Line() != restored.Line() && restored.Class != "loaderr" {
+				preState := string(decodeDump(pre).State)
+				key := preState + "/" + live.Class + "/" + restored.Class
+				if !reported[key] {
+					reported[key] = true
+					fail("restore-changes-behaviour", map[string]interface{}{"state": preState, "live": live.Class, "restored": restored.Class},
+						fmt.Sprintf("in state %s an event is answered differently by the live round (%s) and by the restored one (%s)", preState, live.Class, restored.Class),
+						map[string]interface{}{"start_dump": start, "steps": append([]string{}, steps...), "live": live.Line(), "restored": restored.Line()})
+				}
+			}
+		}
+		// (i) invitations collected -> event_dkg_init_process
+		start := initialDump("round-handover")
+		startProj := projDump(string(decodeDump(start).State), decodeDump(start))
+		inst, _ := loadDump(start)
+		var steps, obs []string
+		seq := []Ev{{"event_sig_proposal_init", reqList(participants(n), t, T(0)), "init-ok"}}
+		for i := 0; i < n; i++ {
+			seq = append(seq, Ev{"event_sig_proposal_confirm_by_participant", reqPart(i, tNorm), "confirm"})
+		}
+		seq = append(seq, Ev{"event_dkg_init_process", reqDefault(T(20)), "handover"})
+		for _, ev := range seq {
+			live, restored, pre := step(inst, ev, &steps, &obs)
+			report(pre, live, restored, startProj, steps)
+		}
+		c.Case("handover-walk", true, "mem "+startProj+" | "+strings.Join(steps, " ;; "), "mem "+strings.Join(obs, " ;; "))
+		// (ii) master keys collected -> event_signing_init (the key generation runs on a restored instance)
+		bz := start
+		for _, ev := range seq {
+			o := doOnDump(bz, ev)
+			if o.Class != "ok" {
+				panic("hand-over prefix rejected: " + ev.Line())
+			}
+			bz = o.DumpOut
+		}
+		midProj := projDump(string(decodeDump(bz).State), decodeDump(bz))
+		inst2, _ := loadDump(bz)
+		steps, obs = nil, nil
+		var seq2 []Ev
+		for k := 0; k < 3; k++ {
+			for i := 0; i < n; i++ {
+				seq2 = append(seq2, Ev{dkgConfirmEv[k], reqData(k, i, fmt.Sprintf("data%d-%d", k, i), tNorm), "dkg-confirm"})
+			}
+		}
+		for i := 0; i < n; i++ {
+			seq2 = append(seq2, Ev{dkgConfirmEv[3], reqMaster(i, "masterkey-A", "pubpoly-A", tNorm), "master"})
+		}
+		seq2 = append(seq2, Ev{"event_signing_init", reqDefault(T(30)), "handover"})
+		for _, ev := range seq2 {
+			live, restored, pre := step(inst2, ev, &steps, &obs)
+			report(pre, live, restored, midProj, steps)
+		}
+		c.Case("handover-walk", true, "mem "+midProj+" | "+strings.Join(steps, " ;; "), "mem "+strings.Join(obs, " ;; "))
+	}
 	for w := 0; w < walks+len(loadable); w++ {
 		p := loadable[c.Rng.Intn(len(loadable))]
 		if w < len(loadable) {
